@@ -365,6 +365,7 @@ func explore(i *interpreter, fn *ssa.Function, e *Explorer) {
 		sched.reset()
 		i.stubs = map[string]*ssa.Function{}
 		i.mapOrderAny = 0
+		i.mapOrderEpoch = 0
 		envOverride = map[string]string{}
 		ncand := len(e.Candidates)
 		kind, msg := runOnce(i, fn, e)
